@@ -323,6 +323,21 @@ def _mshape(ty):
     raise Unsupported('MListOf element type %r' % (ty,))
 
 
+class PDictOf(Ty):
+    """A dictionary over a fixed universe of concrete keys with symbolic presence (pyvc.pdict.PDict); values
+    of shape `value` (MListOf(...)).  In loop frames it is havocked in place."""
+
+    def __init__(self, universe, value):
+        self.universe = tuple(universe)
+        self.value = value
+
+    def make(self, interp, name):
+        from .pdict import PDict
+        d = PDict(interp, interp.st.fresh_name(name), self.universe, self.value)
+        d.havoc(interp, 'in')
+        return d
+
+
 class HavocBy(Ty):
     """In `M.loop(... modifies={'source': HavocBy(fn)})`: the object bound to the name is changed in place by
     the loop body; at the loop head `fn(interp, obj)` makes it arbitrary (e.g. by an environment step)."""
